@@ -387,23 +387,20 @@ impl<'a> Snippet<'a> {
 
         let loc_prefix = l10n.snippet_location_prefix(*location);
 
-        // annotate-snippets cuts leading white space that all lines of a window share once there
-        // is a lot of it ("useless"), and takes it for granted that no marker points into what it
-        // cut: a location in or in front of the indentation of a deeply nested document (a tab
-        // used as indentation, say) had its marker drawn into the line-number gutter. Such a
-        // window is drawn by the renderer of the second window, which cuts nothing.
+        // annotate-snippets cuts leading white space that all lines of a window share - once there
+        // is a lot of it, or as soon as one line of the window is wider than its terminal - and
+        // takes it for granted that no marker points into what it cut: a location in or in front
+        // of the indentation (a tab used as indentation, say) had its marker drawn into the
+        // line-number gutter. A window whose marker lies inside the shared indentation is drawn by
+        // the renderer of the second window, which cuts nothing (what stands in front of the
+        // marker is white space only, so that renderer's plain column counting is exact).
         let shared_indent = window_text
             .lines()
             .filter(|l| !l.trim().is_empty())
-            .map(|l| {
-                l.chars()
-                    .take_while(|c| c.is_whitespace())
-                    .map(|c| if c == '\t' { 4 } else { 1 })
-                    .sum::<usize>()
-            })
+            .map(|l| l.chars().take_while(|c| c.is_whitespace()).count())
             .min()
             .unwrap_or(0);
-        if shared_indent > 20 {
+        if col.saturating_sub(1) < shared_indent {
             let last_row = window_start_absolute_row
                 .saturating_add(window_end_row.saturating_sub(window_start_row));
             let gutter_width = last_row.to_string().len();
